@@ -34,14 +34,14 @@ type c27Lists struct{ kex, host, ciph, mac []string }
 func (l c27Lists) sizes() []int { return []int{len(l.kex), len(l.host), len(l.ciph), len(l.mac)} }
 
 type c27Case struct {
-	idx                   int
-	kex, host, ciph, mac  string
-	payload               int
-	pseed                 uint64
-	goRekey               uint64 // ssh.Config.RekeyThreshold on the Go side (0 = default)
-	peerRekey             int    // (a) OpenSSH RekeyLimit in KiB; (b) refpeer RekeyEvery in bytes
-	rekeyAfterAuth        bool   // (b) only
-	userKey               int    // (b) only
+	idx                  int
+	kex, host, ciph, mac string
+	payload              int
+	pseed                uint64
+	goRekey              uint64 // ssh.Config.RekeyThreshold on the Go side (0 = default)
+	peerRekey            int    // (a) OpenSSH RekeyLimit in KiB; (b) refpeer RekeyEvery in bytes
+	rekeyAfterAuth       bool   // (b) only
+	userKey              int    // (b) only
 }
 
 func (k c27Case) tuple() string { return k.kex + "|" + k.host + "|" + k.ciph + "|" + k.effMAC() }
